@@ -172,6 +172,15 @@ class DefaultFormatter(BaseFormatter):
             Formatted comment string
         """
 
+        # Line breaks and the closing symbols would end the comment
+        # early and turn the rest of the text into G-code
+
+        text = " ".join(text.splitlines())
+        closing = self._comment_template.partition("{}")[2].strip()
+
+        if len(closing) > 0:
+            text = text.replace(closing, " ")
+
         return self._comment_template.format(text)
 
     @typechecked
